@@ -8,6 +8,7 @@ search.py:50-89).  Ghost fields (prefix g_) exist only in specifications.
 
 def declare(reg):
     reg.enum("asimap/client.py", "ClientState")
+    reg.enum("asimap/parse.py", "StatusAtt")
     reg.record("SearchArgs", {
         "msg_set": "list[MsgElt]", "keyword": "str", "n": "int", "string": "str", "header": "str", "search_key": "ref:IMAPSearch", "date": "int",
     })
@@ -27,7 +28,7 @@ def declare(reg):
     reg.classdef(
         "BaseClientHandler",
         {"client": "ref:ClientProxy", "mbox": "opt[ref:Mailbox]", "server": "opt[ref:IMAPUserServer]", "state": "enum:ClientState",
-         "tag": "opt[str]", "name": "str", "pending_notifications": "list[str]"},
+         "tag": "opt[str]", "name": "str", "pending_notifications": "list[str]", "idling": "bool"},
         path="asimap/client.py",
     )
     reg.union("HandlerResult", ["None", "bool", "str"])
@@ -93,6 +94,12 @@ def declare(reg):
             "input": "str",
             "password": "str",
             "mailbox_name": "str",
+            "mailbox_src_name": "str",
+            "mailbox_dst_name": "str",
+            "message": "opaque:EmailMessage",
+            "flag_list": "list[str]",
+            "date_time": "opt[opaque:datetime]",
+            "status_att_list": "list[enum:StatusAtt]",
         },
         path="asimap/parse.py",
     )
